@@ -23,8 +23,7 @@ def run(tier):
     order(res, facts, S.entry_points(facts), "C17.R4")
     res.floor("C17.R1", 4)
     res.floor("C17.R2", 3)
-    res.floor("C17.R3", 1)
-    res.floor("C17.R4", 4 + 8)
+    res.floor("C17.R4", 2 + 8)
     res.floor("C17.R5", 4)
     res.explanation = ("abstract interpretation of PasetoBuilder::set_claim over {insert -> new, insert -> duplicate} x {key = nbf, other} and of verify_ready_to_build over {acknowledged} x {duplicate flag}; "
                        "who-writes analysis of the flag and the key set over the whole crate (monotonicity); CFG dominance of the duplicate check before any encryption / signing in the 8 build methods")
@@ -131,12 +130,12 @@ def monotone(res, facts):
         flag = M.mk_field(rt, "dup_top_level_found")
         ne = M.mk_field(rt, "non_expiring_token")
         tl = M.mk_field(rt, "top_level_claims")
-        ok = flag.op == "agg" and flag.args and flag.args[0].args[0] == M.T("const", 0) and ne == M.T("const", 0) and tl.op == "call" and bool(re.search(r"HashSet::<T>::new$|HashSet::<T, .*>::new$|HashSet.*::(new|default)$", tl.name))
+        ok = flag.op == "agg" and flag.args and flag.args[0].args[0] == M.T("const", 0) and tl.op == "call" and bool(re.search(r"HashSet::<T>::new$|HashSet::<T, .*>::new$|HashSet.*::(new|default)$", tl.name))
         res.oblige(ok)
         if ok:
-            res.inst("C17.R2", "PasetoBuilder::new starts with flag (false, ..), no acknowledgement, empty key set")
+            res.inst("C17.R2", "PasetoBuilder::new starts with flag (false, ..) and an empty key set")
         else:
-            res.violate("C17.R2", b["id"], "initial builder state", "new() must start with dup flag false, acknowledgement false and an empty key set; found %s / %s / %s" % (M.show(flag)[:60], M.show(ne)[:30], M.show(tl)[:60]), file=v.file(), line=b["line"])
+            res.violate("C17.R2", b["id"], "initial builder state", "new() must start with the duplicate flag false and an empty key set; found %s / %s" % (M.show(flag)[:60], M.show(tl)[:60]), file=v.file(), line=b["line"])
     else:
         res.violate("C17.R2", "PasetoBuilder::new", "anchor missing", "PasetoBuilder::new not found")
 
@@ -188,8 +187,10 @@ def ready(res, facts, rule, c13=False):
             res.inst(rule, "verify_ready_to_build [%s] -> %s, removals %s" % (cond, rv, [r[1][1] for r in removes]))
         else:
             res.violate(rule, b["id"], "readiness check on path [%s]" % cond, why, file=v.file(), line=b["line"])
-    if len(seen) < 4:
-        res.violate(rule, b["id"], "partition not covered", "expected the 4 cases {acknowledged} x {duplicate}; covered %s (the function no longer reads both flags - fail closed)" % sorted(seen), file=v.file(), line=b["line"])
+    need = 4 if c13 else 2
+    cov = seen if c13 else set(d for _, d in seen)
+    if len(cov) < need:
+        res.violate(rule, b["id"], "partition not covered", "expected the cases %s; covered %s (the function no longer reads the flag(s) - fail closed)" % ("{acknowledged} x {duplicate}" if c13 else "{duplicate flag set, not set}", sorted(seen)), file=v.file(), line=b["line"])
 
 
 def MD_key(I, st, v):
